@@ -18,7 +18,7 @@
   * messages carry a ghost id (arrival number) for the theorems.
 -/
 import NngModel.Proto.Base
-import NngModel.Generated.Consts
+import NngModel.Generated.C05
 namespace Nng.Xsub
 open Nng Nng.Proto
 
